@@ -86,6 +86,10 @@ Definition entry (orc : oracle) (cmd : str) (args : list sx) : option sx :=
     let C := if is (a 0%nat) "legacy" then legacy else if is (a 0%nat) "loud" then loud else if is (a 0%nat) "current" then current else head in
     Some (sx_of_result (hook_run C (faults_of (sx_list (a 1%nat))) (sx_str (a 2%nat)) (hin_of (a 3%nat))))
   else if is_cmd cmd "hook_nolog" then Some (sx_of_result (run_nolog (hin_of (a 0%nat))))
+  else if is_cmd cmd "log_entry" then
+    (* config.log_decision as a function: the line for (log-full, decision, cmd, rule?, message?, command?, ts) *)
+    let o x := opt_of_sx sx_str x in
+    Some (A (jline (entry (sx_bool (a 0%nat)) (sx_str (a 1%nat)) (sx_str (a 2%nat)) (o (a 3%nat)) (o (a 4%nat)) (o (a 5%nat)) (sx_str (a 6%nat)))))
   else if is_cmd cmd "json_line" then Some (A (jline (map pair_of (sx_list (a 0%nat)))))
   else if is_cmd cmd "read_line" then
     Some (sx_opt (fun ps => L (map (fun kv => L [A (fst kv); A (snd kv)]) ps)) (read_line (sx_str (a 0%nat))))
